@@ -1,5 +1,5 @@
 #!/bin/bash
 # debugging helper: ./dbg.sh PROP [budget_ms] [any-regex]
 export GOFLAGS=-mod=mod GOPROXY=off GOSUMDB=off GOTOOLCHAIN=local
-cd /verif/hsim && go1.26.8 test -tags verif -c -o /verif/.build/hsim.test . || exit 2
+/verif/gen.sh >/dev/null && cd /verif/hsim && go1.26.8 test -tags verif -c -o /verif/.build/hsim.test . || exit 2
 cd /verif/.build && HSIM_OUT=/tmp/o.json HSIM_PROP=$1 HSIM_BUDGET_MS=${2:-3000} HSIM_ANY=$3 HSIM_SEED=${SEED:-0} HSIM_NOSHRINK=$NOSHRINK HSIM_KNOWN=/verif/known_findings.json ./hsim.test -test.run TestCheck -test.timeout 600s >/tmp/o.log 2>&1; tail -3 /tmp/o.log; python3 /tmp/show.py < /tmp/o.json 2>&1 | grep -v '^{"prop' | cut -c1-2500
